@@ -299,14 +299,17 @@ def run(ctx):
         got = out.split("\n")[:-1]
         if rc != 0 or got != exp:
             refused = "Did not compile" in (out + err)
-            ctx.report("captured-variable:" + pos, "a captured variable used as %s (%s): %s, expected %r: %s"
+            # one class per kind of use: the positions that index with the captured variable / use it as a map key share one
+            kind = "as-index" if any(t in src for t in ("lst[a]", "lst[bi]", "(lst)[a]", "s[a]")) else "as-map-key" if "m[k]" in src else pos
+            ctx.report("captured-variable:" + kind, "a captured variable used as %s (%s): %s, expected %r: %s"
                        % (pos, where, "the program is refused" if refused else "printed %r (exit %d)" % (got, rc), exp, (out + err)[-300:].replace("\n", " ")),
                        {"program": src, "expected": exp, "observed": got, "rc": rc, "stderr": err[-600:], "how": "mscript run main.ms -q"})
     for (form, src, exp), (rc, out, err) in zip(MODIFY_ALIAS_CASES, programs.pmap(one_view, [(c[1], c[2]) for c in MODIFY_ALIAS_CASES])):
         got = out.split("\n")[:-1]
         if rc != 0 or got != exp:
             refused = "Did not compile" in (out + err)
-            ctx.report("modify-is-not-a-declaration:" + form, "what follows a `modify` of a captured variable in the same function (%s): %s, expected %r: %s"
+            kind = "loop-counter" if "counter" in form else "local-assignment"
+            ctx.report("modify-is-not-a-declaration:" + kind, "what follows a `modify` of a captured variable in the same function (%s): %s, expected %r: %s"
                        % (form, "the program is refused" if refused else "printed %r (exit %d)" % (got, rc), exp, (out + err)[-300:].replace("\n", " ")),
                        {"program": src, "expected": exp, "observed": got, "rc": rc, "stderr": err[-600:], "how": "mscript run main.ms -q"})
     ctx.cov["view_cases"] = len(vcs)
